@@ -615,6 +615,8 @@ def gen(seed, run, tier='quick'):
     deps = [sorted({created_by[n] for n in _needs(act) if n in created_by})
             for act in decls]
     histories = []
+    rmode = rng.choice([None, None, 'ROUND_UP', 'ROUND_DOWN', 'ROUND_FLOOR',
+                        'ROUND_HALF_UP', 'ROUND_CEILING'])
     for w in range(k_worlds):
         hr = random.Random(rng.randrange(1 << 62))
         # random topological order (world 0 keeps the generation order)
@@ -676,6 +678,11 @@ def gen(seed, run, tier='quick'):
                                    2 if hr.random() < 0.3 else 1])
         for _ in range(hr.choice([0, 0, 1, 2, 4])):
             steps.insert(hr.randrange(len(steps) + 1), ['evict'])
+        if rmode:
+            # the user switches decimalfp's default rounding mode, once,
+            # somewhere in every history of this run: a result depends on
+            # the mode at the moment of the operation, on nothing earlier
+            steps.insert(hr.randrange(len(steps) + 1), ['rmode', rmode])
         # other operations of the API in between (quantize with explicit
         # rounding modes - also of amount zero -, round, convert, allocate,
         # add, compare): they must not influence any product / quotient
@@ -892,6 +899,11 @@ def run_world(arg):
         elif st[0] == 'evict':
             res, info = decl.perform(env, {'a': 'evict'})
             out.append(['evict', info.get('evicted', 0)])
+        elif st[0] == 'rmode':
+            import decimalfp
+            decimalfp.set_dflt_rounding_mode(
+                getattr(decimalfp.ROUNDING, st[1]))
+            out.append(['rmode', st[1]])
         elif st[0] == 'hashseed':
             out.append(['hashseed', os.environ.get('PYTHONHASHSEED')])
         elif st[0] == 'other':
@@ -954,6 +966,7 @@ def judge(h):
         undefined_before = {}      # probe id -> step where it raised
         order_sig = []
         decl_left = sum(1 for s_ in steps if s_[0] == 'decl')
+        epoch = 0
         for si, rec in enumerate(out):
             if rec[0] == 'decl':
                 decl_left -= 1
@@ -973,6 +986,9 @@ def judge(h):
                     same_end_state[0] = False
             elif rec[0] == 'evict':
                 bump(faults, 'memo_eviction')
+            elif rec[0] == 'rmode':
+                epoch = 1
+                bump(faults, 'rounding_mode_switched')
             elif rec[0] == 'other':
                 if rec[1] != 'operand_missing':
                     bump(faults, 'other_api_operation_in_between')
@@ -990,9 +1006,11 @@ def judge(h):
                 pre = _precondition(model, p)
                 recs = [o1] + ([rec[3]] if len(rec) > 3 else [])
                 for o in recs:
-                    evals.setdefault(rec[1], []).append((w, si, pre, o))
+                    evals.setdefault((rec[1], epoch), []).append(
+                        (w, si, pre, o))
                     if decl_left == 0:
-                        finals.setdefault(rec[1], []).append((w, si, o))
+                        finals.setdefault((rec[1], epoch), []).append(
+                            (w, si, o))
                 # ---- oracle 3: repeating returns an equal result
                 if len(rec) > 3:
                     bump(pr, 'evaluated_twice_in_a_row')
@@ -1012,7 +1030,7 @@ def judge(h):
                                 probe=p, world=w, step=si,
                                 first_raised_at=undefined_before[rec[1]])
     # ---- oracle 1: same outcome whenever the precondition holds
-    for pid, lst in evals.items():
+    for (pid, _epoch), lst in evals.items():
         good = [e for e in lst if e[2]]
         if len({e[0] for e in good}) >= 2:
             bump(pr, 'probe_compared_across_worlds')
@@ -1035,7 +1053,7 @@ def judge(h):
     # declared the same; whatever an operation yields then (a value or a
     # refusal), it yields in every history
     if same_end_state[0]:
-        for pid, lst in finals.items():
+        for (pid, _epoch), lst in finals.items():
             ref = None
             for w_, si_, o_ in lst:
                 key = o_[:5] if o_[0] == 'ok' else ('refused',)
